@@ -4,7 +4,7 @@
 
 enum { QK_SERIAL, QK_CONC, QK_GLOBAL, QK_MAIN, QK_WORKLOOP, QK_N };
 enum { OP_ASYNC, OP_BARRIER_ASYNC, OP_GROUP_ASYNC, OP_SYNC, OP_BARRIER_SYNC, OP_AAW, OP_BARRIER_AAW,
-	OP_APPLY, OP_SUSPEND, OP_ACTIVATE, OP_PAUSE, OP_N };
+	OP_APPLY, OP_SUSPEND, OP_ACTIVATE, OP_PAUSE, OP_RETARGET, OP_N };
 enum { B_EMPTY, B_YIELD, B_SLEEP, B_NEST, B_WAIT_LATER, B_N };
 
 // oracle selection
@@ -38,6 +38,8 @@ typedef struct qnode {
 	// queue-specific model (C18)
 	void *spec[4];
 	char label[24];
+	// dispatch_set_target_queue on an active leaf queue (C03): new target, stamps of the call
+	int retarget_to; uint64_t rt_call, rt_ret;
 } qnode;
 
 typedef struct qop {
@@ -61,6 +63,7 @@ typedef struct qitem {
 	qop *op;
 	uint64_t payload[3], cksum, result, result_ck;
 	int prev_on_queue;   // item that ended last on this serial queue when this one started
+	int dom;             // serialising bottom of the hierarchy its queue was in when it was submitted (-1 none, -2 unknown: submitted while the queue was being retargeted)
 } qitem;
 
 typedef struct qgen {
@@ -81,6 +84,7 @@ typedef struct qgen {
 	int main_tree;       // queues may target the main queue; any item outside that tree may dispatch_sync into it
 	int specific;        // set queue-specific keys
 	int blockobj;        // barrier items may be DISPATCH_BLOCK_BARRIER block objects
+	int retarget;        // an active leaf queue may be moved under another queue with dispatch_set_target_queue while it is in use
 	int suspend_inactive; // suspend/resume may also hit queues that have not been activated yet
 	int no_privblocks;   // 1: never replace a block literal by a dispatch_block_create(0, ...) object
 } qgen;
